@@ -47,7 +47,8 @@ def run_check(prop, tier):
     t0 = time.time()
     q = tier == "quick"
     lists = E.ALL_LISTS
-    allocs = ["AE", "NP", "PP"] if q else ["AE", "NP", "PP", "NPS"] + E.TRAIT_KINDS[1:7]
+    # XNP / XPP: allocators whose converting (rebinding) constructor is explicit
+    allocs = ["AE", "NP", "PP", "XNP"] if q else ["AE", "NP", "PP", "NPS", "XNP", "XPP"] + E.TRAIT_KINDS[1:7]
     stds = [17] if q else [17, 20]
     internal = []
     violations = []
